@@ -479,7 +479,7 @@ pub fn run(ctx: &Ctx) -> Report {
     total.merge(p.st);
     rep.set("exhaustive", complete);
     rep.set("phases", Value::Array(phase_info));
-    rep.set("rule", "every history of exactly D operations over the 15-operation alphabet {add a, add b, delete a, delete b, delete last id, delete_query(a AND NOT first id), run([add a, delete a, add a]), delete_all_documents, commit, prepare+payload+commit, prepare+abort, rollback, merge all, drop+reopen, wait_merging_threads+reopen} whose last operation observes (shorter histories are prefixes; a<->b symmetry removed), from the initial state and three non-initial states, under {1 worker}, {1 worker, segment cut after every document}, {2 workers}, {2 workers, cut after 2} and, with a merge policy that merges whenever two segments exist, {1 worker, cut after 1}, {2 workers, cut after 1}; plus one designated operation batch larger than the memory budget: after every observing operation a fresh searcher (ids, keys, stored and fast fields, postings) equals the reference model; opstamps increase, the commit opstamp exceeds them and equals meta.json's. Schedules: a merge of committed segments is preempted in front of every storage operation of its merge thread and of the updater finishing it by seven writer-side actions, by a writer restart and by a rollback; all 24 ordered pairs of merges sharing a source are requested together; a commit is held at every storage operation until a concurrent merge asks for publication: the published documents, opstamp and payload are those of the last commit. Non-trivial: history with a commit and a delete / rollback / batch; histories are distinct by construction");
+    rep.set("rule", "every history of exactly D operations over the 15-operation alphabet {add a, add b, delete a, delete b, delete last id, delete_query(a AND NOT first id), run([add a, delete a, add a]), delete_all_documents, commit, prepare+payload+commit, prepare+abort, rollback, merge all, drop+reopen, wait_merging_threads+reopen} whose last operation observes (shorter histories are prefixes; a<->b symmetry removed), from the initial state and three non-initial states, under {1 worker}, {1 worker, segment cut after every document}, {2 workers}, {2 workers, cut after 2} and, with a merge policy that merges whenever two segments exist, {1 worker, cut after 1}, {2 workers, cut after 1}; plus one designated operation batch larger than the memory budget: after every observing operation a fresh searcher (ids, keys, stored and fast fields, postings) equals the reference model; opstamps increase, the commit opstamp exceeds them and equals meta.json's. Schedules: a merge of committed segments is preempted in front of every storage operation of its merge thread and of the updater finishing it by seven writer-side actions, by a writer restart and by a rollback; all 24 ordered pairs of merges sharing a source are requested together; a commit is held at every storage operation until a concurrent merge asks for publication: the published documents, opstamp and payload are those of the last commit; two producer threads on one shared writer (6 x 5 programs of add / delete / batch): producer A is held at each of its hook points between drawing an opstamp and enqueueing the operation while producer B runs its whole program, and the committed documents must equal one of the sequential orders consistent with that overlap. Non-trivial: history with a commit and a delete / rollback / batch; histories are distinct by construction");
     rep.set("states", total.counters.get("observations").copied().unwrap_or(0).max(1));
     rep.set("transitions", total.counters.get("transitions").copied().unwrap_or(0).max(1));
     rep.set("traces_validated_against_impl", total.evaluations);
